@@ -29,6 +29,12 @@ def gen_cases(rng, tier):
         c = gen_case(rng, maxlen=rng.choice([3, 5, 8]), depth=3, p_sub=0.3, p_rel=0.0, p_dangling=0.02)
         c['obs'] = ['flatten']
         cases.append(c)
+    for _ in range(24 if tier == 'quick' else 400):      # rarely met shapes (coregen.gen_structured), implicitly sequenced ones only
+        c = coregen.gen_structured(rng)
+        if coregen.has_rel(c['prog']):
+            continue
+        c['obs'] = ['flatten']
+        cases.append(c)
     # library-built circuits, modifier-applied then flattened: order, schedule, indices and Stim program must be identical
     nlib = 20 if tier == 'quick' else 250
     for _ in range(nlib):
